@@ -114,7 +114,8 @@ PROPS["C02"] = dict(
 PROPS["C03"] = dict(
     level="model_checking",
     budget_s=dict(quick=300, thorough=1200),
-    parts=[dict(name="containers", bin="C03", flavour="plain")],
+    parts=[dict(name="containers", bin="C03", flavour="plain", budget_share=0.9),
+           dict(name="has_by_handle", bin="C04x", flavour="plain", shards=4, args=dict(quick=["--family=has"], thorough=["--family=has"]))],
     manifest=dict(
         engine="E1", design_ref="5 / C03",
         technique="exhaustive enumeration of create/delete/reopen sequences per container kind on the real library against an ordered-list reference model",
@@ -122,7 +123,9 @@ PROPS["C03"] = dict(
              "create(name from an adversarial pool incl. case/blank variants, '..', UTF-8, UUID-shaped, 200-byte names), delete(first/last/middle child "
              "by name/id/handle) and REOPEN is executed on a fresh file, from an empty and from a pre-populated container; after every "
              "step count, enumeration, index/name/id lookups, has-queries by name/id/handle and absence of absent names are compared with "
-             "the ordered-list model (creation order; duplicates rejected).",
+             "the ordered-list model (creation order; duplicates rejected). Second part (props/C04x.cpp, family has): every has*(const Entity&) "
+             "overload is asked about a handle that is NOT a member but carries the name of one (entity of the other block, deeper level of the same "
+             "tree, feature of another tag) and about a real member, in the creating session and after REOPEN: the answer must be false / true and the file unchanged.",
         note="Whether a legal-looking name is accepted is not asserted (only that what exists is consistent and a rejected create changes "
              "nothing). Entity sources are addressed by id only (no by-name API)."),
     evidence=dict(
@@ -189,7 +192,8 @@ PROPS["C09"] = dict(
 PROPS["C04"] = dict(
     level="model_checking",
     budget_s=dict(quick=300, thorough=3600),
-    parts=[dict(name="graphs", bin="C04", flavour="plain")],
+    parts=[dict(name="graphs", bin="C04", flavour="plain", budget_share=0.9),
+           dict(name="foreign_handles", bin="C04x", flavour="plain", shards=4, args=dict(quick=["--family=delete"], thorough=["--family=delete"]))],
     manifest=dict(
         engine="E1", design_ref="5 / C04",
         technique="exhaustive enumeration of link subsets (size <= k of a 31-link menu) x victim x delete mode x reopen variant on the real library; reference model = structured observation before the delete with the victim's subtree and all links to it removed",
@@ -197,7 +201,10 @@ PROPS["C04"] = dict(
              "Every subset of at most k links (k=2 quick, 3 thorough; plus the all-links graph) out of 31 link options of every supported kind, with reopen "
              "none / after all links / after the first link; then each of 22 victims is deleted by name, by id and by handle through its owner. The "
              "observation after the delete (same session and after reopen) must equal the model; lookups by the old name/id must find nothing; old "
-             "handles of the victim (and of all nodes of a deleted source/section subtree) must report invalid or throw.",
+             "handles of the victim (and of all nodes of a deleted source/section subtree) must report invalid or throw. Second part (props/C04x.cpp, "
+             "family delete): every delete*(const Entity&) overload is handed a handle that does not belong to the container it is called on but "
+             "carries the name of a member (other block, deeper level of the same tree, other tag): it must refuse and leave the whole observation as it "
+             "was; handed a real member it must delete it; both in the creating session and after REOPEN, and the result must survive a reopen.",
         note="'Does not expose' accepts none or an exception from a holder whose target is gone. Handles to entities that merely lived inside the victim "
              "(arrays of a deleted block, properties of a deleted section) are not constrained by the statement."),
     evidence=dict(
